@@ -369,6 +369,7 @@ class Interp:
 
     def st_Try(self, st):
         frame = self.frame
+        n_flags = len(self.st.flags)
         try:
             try:
                 self.exec_block(st.body)
@@ -376,6 +377,9 @@ class Interp:
                 handler = self._match_handler(st.handlers, ar.exc)
                 if handler is None:
                     raise
+                if ar.exc.name == "AttributeError":
+                    # a missing attribute that the code expects and handles (unset slot, optional attribute) is no finding
+                    self.st.flags[n_flags:] = [f for f in self.st.flags[n_flags:] if f[0] not in ("missing-attribute", "none-attribute")]
                 if handler.name:
                     frame.env[handler.name] = OpaqueV("exc")
                 saved = frame.cur_exc
